@@ -205,9 +205,29 @@ let all_pcs : ppc list = [
   Z2Ret; WBkNewTimer; WBkAdd; GaLock; GaDefer; GaIf; GaSet; GaInc; WBkUnlock2 ]
 
 (* statements that are TEXT-PINNED only (no program counter in the interleaving model): States / sendState /
-   getState / internalState (exercised dynamically by the States consumer of c10-pool-stress) and the With* options;
+   getState / internalState (exercised dynamically by the States consumer of c10-pool-stress), the With* options and the
+   constructor (both exercised by the sequential constructor differential and the timer-duration observation);
    an edit of any of them is reported as a skeleton change *)
 let pinned_labels = [
+  "NewOnDemandBlockTaskPool|if initGo < 1 || initGo > math.MaxInt32|0";
+  "NewOnDemandBlockTaskPool|return nil, fmt.Errorf(\"%w：initGo应该大于0且不超过math.MaxInt32\", errInvalidArgument)|0";
+  "NewOnDemandBlockTaskPool|if queueSize < 0|0";
+  "NewOnDemandBlockTaskPool|return nil, fmt.Errorf(\"%w：queueSize应该大于等于0\", errInvalidArgument)|0";
+  "NewOnDemandBlockTaskPool|b := &OnDemandBlockTaskPool{ queue: make(chan Task, queueSize), initGo: int32(initGo), coreGo: int32(initGo), maxGo: int32(initGo), maxIdleTime: defaultMaxIdleTime, }|0";
+  "NewOnDemandBlockTaskPool|ctx := context.Background()|0";
+  "NewOnDemandBlockTaskPool|b.interruptCtx, b.interruptCtxCancel = context.WithCancel(ctx)|0";
+  "NewOnDemandBlockTaskPool|atomic.StoreInt32(&b.state, stateCreated)|0";
+  "NewOnDemandBlockTaskPool|option.Apply(b, opts...)|0";
+  "NewOnDemandBlockTaskPool|if b.coreGo != b.initGo && b.maxGo == b.initGo|0";
+  "NewOnDemandBlockTaskPool|b.maxGo = b.coreGo|0";
+  "NewOnDemandBlockTaskPool|if b.coreGo == b.initGo && b.maxGo != b.initGo|0";
+  "NewOnDemandBlockTaskPool|b.coreGo = b.maxGo|0";
+  "NewOnDemandBlockTaskPool|if !(b.initGo <= b.coreGo && b.coreGo <= b.maxGo)|0";
+  "NewOnDemandBlockTaskPool|return nil, fmt.Errorf(\"%w : 需要满足initGo <= coreGo <= maxGo条件\", errInvalidArgument)|0";
+  "NewOnDemandBlockTaskPool|b.timeoutGroup = &group{mp: make(map[int]int)}|0";
+  "NewOnDemandBlockTaskPool|if b.queueBacklogRate < float64(0) || float64(1) < b.queueBacklogRate|0";
+  "NewOnDemandBlockTaskPool|return nil, fmt.Errorf(\"%w ：queueBacklogRate合法范围为[0,1.0]\", errInvalidArgument)|0";
+  "NewOnDemandBlockTaskPool|return b, nil|0";
   "WithQueueBacklogRate|return func(pool *OnDemandBlockTaskPool) { pool.queueBacklogRate = rate }|0";
   "WithQueueBacklogRate|pool.queueBacklogRate = rate|0";
   "WithCoreGo|return func(pool *OnDemandBlockTaskPool) { pool.coreGo = n }|0";
@@ -257,7 +277,8 @@ let funcs = [ "taskWrapper.Run"; "TaskFunc.Run"; "group.isIn"; "group.add"; "gro
               "OnDemandBlockTaskPool.Shutdown"; "OnDemandBlockTaskPool.ShutdownNow"; "OnDemandBlockTaskPool.numOfGo";
               (* text-pinned *)
               "OnDemandBlockTaskPool.States"; "OnDemandBlockTaskPool.sendState"; "OnDemandBlockTaskPool.getState";
-              "OnDemandBlockTaskPool.internalState"; "WithQueueBacklogRate"; "WithCoreGo"; "WithMaxGo"; "WithMaxIdleTime" ]
+              "OnDemandBlockTaskPool.internalState"; "WithQueueBacklogRate"; "WithCoreGo"; "WithMaxGo"; "WithMaxIdleTime";
+              "NewOnDemandBlockTaskPool" ]
 
 let err_str = function
   | PENone -> "nil" | PEInvalid -> "invalid" | PEClosing -> "closing" | PEStopped -> "stopped"
